@@ -82,7 +82,17 @@ def observe(c, dynamic):
     o["coords"] = [_res(lambda i=i: list(g.get_cell_coordinates(i))) for i in probe]
     o["index_lin"] = [_res(lambda i=i: int(g.get_cell_index(i))) for i in probe]
     tri = [(x - 1, y - 1, z - 1) for z in range(d + 2) for y in range(h + 2) for x in range(w + 2)]
-    o["index_tri"] = [_res(lambda p=p: int(g.get_cell_index(p))) for p in tri]
+    import numpy as np
+
+    def form(k, p):
+        # the same coordinates in every form the API takes: tuple, list, numpy rows of narrow and wide integer types, and - for points
+        # of the grid - floats inside the cell (index and bounds test both truncate coordinate by coordinate)
+        inside = all(v >= 0 for v in p)
+        f = [lambda: p, lambda: list(p), lambda: np.array(p, dtype=np.int8), lambda: np.array(p, dtype=np.int64),
+             lambda: np.array(p, dtype=np.uint8) if inside else p, lambda: [v + 0.25 for v in p] if inside else p,
+             lambda: np.array([v + 0.5 for v in p], dtype=np.float32) if inside else list(p), lambda: np.array(p, dtype=np.int16)]
+        return f[k % len(f)]()
+    o["index_tri"] = [_res(lambda p=p, k=k: int(g.get_cell_index(form(k, p)))) for k, p in enumerate(tri)]
     o["index_obj"] = [_res(lambda p=p: int(g.get_cell_index(_Pos(*p)))) for p in tri]
     o["nbrs"] = [[int(v) for v in g.get_neighbors(i)] for i in range(n)]
     o["are"] = [[bool(g.are_neighbors(a, b)) for b in range(n)] for a in range(n)]
@@ -241,6 +251,10 @@ def gen_cases(rng, tier):
             n = w * h * d
             cases.append({"w": w, "h": h, "d": d, "per": list(per), "env": [rng.randrange(2) for _ in range(n)],
                           "edge": 2.0, "h3": 8.0, "dynamic": n <= max_dyn, "history": len(cases) % 3 == 1})
+    # two grids above 255 cells with both strides above one (static relations only): narrow coordinate types must not wrap
+    for (w, h, d) in ((16, 17, 1), (7, 6, 7)):
+        cases.append({"w": w, "h": h, "d": d, "per": [False, True, False], "env": [0] * (w * h * d), "edge": 2.0, "h3": 8.0,
+                      "dynamic": False, "history": False})
     return cases
 
 
